@@ -10,12 +10,14 @@
               decoded items and the headers of each body, and the five counters at rest.
 
    Take / Put / DrainTake happen inside ReceiveMetricMap / Drain and cannot be seen; what the LTS of
-   Model/Consolidator.v allows an observer to see is characterised by Props.C15_flush_contains: the
-   flush f that carries a batch satisfies  Take < DrainEmit f  and  (f = 1 or DrainStart (f-1) < Put),
-   and nothing that was Put is still outside the sink after the next DrainEmit.  With call < Take,
-   Put < return, ready-mark f < DrainEmit f < done-mark f this gives [window_ok] below, which Coq
-   evaluates on the trace.  Requests are replayed label by label through Model.Forwarder.post_step
-   (Props.C15_retry_discipline) and the counters compared with the sum of the replayed requests. *)
+   Model/Consolidator.v allows an observer to see is characterised by Props.C15_flush_contains: a batch
+   is carried by the first emission after its Put, i.e. flush f with  DrainEmit (f-1) < Put < DrainEmit f.
+   With call < Take < Put < return, and the harness marks ready f < DrainEmit f < done f, this gives
+   [window_ok] below (call < done f, and ready (f-1) < return), which Coq evaluates on the trace: for the
+   consolidator stream on the observed emissions, for the forwarder stream (where emissions are not
+   visible) as the existence of a flush index that fits every item of a request body.  Requests are
+   replayed label by label through Model.Forwarder.post_step (Props.C15_retry_discipline) and the
+   counters compared with the sum of the replayed requests. *)
 From stdpp Require Import gmap.
 From GS Require Export Base.LTS Corr.MMLib Model.Consolidator Model.Forwarder.
 Local Open Scope nat_scope.
